@@ -43,6 +43,7 @@ class Ctx:
         self.fn_ret = fn_ret        # None outside functions, else the return type
         self.depth = depth
         self.frozen = set()         # names that must not be assigned (loop counters)
+        self.binders = set()        # parameters / loop targets that live in scopes[-1]: whether the body may declare them again is unspecified (DESIGN 11.3b)
 
     def child(self, **kw):
         c = Ctx(self.scopes + [{}], self.in_loop, self.fn_ret, self.depth + 1)
@@ -339,6 +340,7 @@ class Gen:
         names = [self.fresh("p") for _ in ptypes]
         c = Ctx(ctx.scopes + [dict(zip(names, ptypes))], False, ret, ctx.depth + 1)
         c.frozen = set(ctx.frozen)
+        c.binders = set(names)
         body = self.stmts(self.r.randrange(0, 3), c)
         body.append(A.Return(self.expr(ret, c, 1)))
         return A.FuncE([A.Var(n) for n in names], False, body)
@@ -550,6 +552,7 @@ class Gen:
             c.scopes[-1][kn] = kt
             c.scopes[-1][vn] = tlist(vt, 1)
         c.frozen.update([kn, vn])
+        c.binders = {kn, vn}
         body = self.stmts(r.randrange(1, 4), c)
         if r.random() < 0.5 and vn in c.scopes[-1] and kind(c.scopes[-1][vn]) != "fn":
             body.insert(0, A.pr(A.Var(vn)))
@@ -565,6 +568,7 @@ class Gen:
         t = tfn(ptypes, ret)
         c = Ctx(ctx.scopes + [dict(zip(pnames, ptypes))], False, ret, ctx.depth + 1)
         c.frozen = set(ctx.frozen)
+        c.binders = set(pnames)
         body = self.stmts(r.randrange(1, 5), c)
         body.append(A.Return(self.expr(ret, c, 1)))
         self.declare(ctx, name, t)
@@ -911,7 +915,7 @@ class Gen:
             return [A.If([(any_int, [A.pr(A.Int(1))])], None)]
         if k == 10 and ctx.scopes[-1]:
             n = r.choice(list(ctx.scopes[-1]))
-            if n not in ("this",):
+            if n not in ("this",) and n not in ctx.binders:
                 return [A.Declare(V(n), A.Int(0))]
         if k == 11:
             return [A.pr(A.Index(A.Str("abc"), A.Int(-1)))]
